@@ -97,15 +97,24 @@ fn entry_case(rest: &str) -> String {
 }
 
 // ------------------------------------------------------------------------------------- layer T
-const IO_TIMEOUT: Duration = Duration::from_secs(6);
+// Generous while the server behaves; once a few requests have gone unanswered in this process (a liveness
+// failure is already established) the remaining waits are cut short so that shrinking stays feasible.
+static UNANSWERED: std::sync::atomic::AtomicUsize = std::sync::atomic::AtomicUsize::new(0);
+fn io_timeout() -> Duration {
+    if UNANSWERED.load(std::sync::atomic::Ordering::Relaxed) >= 3 {
+        Duration::from_millis(700)
+    } else {
+        Duration::from_secs(6)
+    }
+}
 
 fn connect_from(src: u32, port: u16) -> std::io::Result<socket2::Socket> {
     use socket2::{Domain, Protocol, Socket, Type};
     let s = Socket::new(Domain::IPV4, Type::STREAM, Some(Protocol::TCP))?;
     s.bind(&SocketAddr::V4(SocketAddrV4::new(Ipv4Addr::from(src), 0)).into())?;
-    s.connect_timeout(&SocketAddr::V4(SocketAddrV4::new(Ipv4Addr::LOCALHOST, port)).into(), IO_TIMEOUT)?;
-    s.set_read_timeout(Some(IO_TIMEOUT))?;
-    s.set_write_timeout(Some(IO_TIMEOUT))?;
+    s.connect_timeout(&SocketAddr::V4(SocketAddrV4::new(Ipv4Addr::LOCALHOST, port)).into(), io_timeout())?;
+    s.set_read_timeout(Some(io_timeout()))?;
+    s.set_write_timeout(Some(io_timeout()))?;
     s.set_nodelay(true)?;
     Ok(s)
 }
@@ -210,7 +219,11 @@ fn do_conn(src: u32, port: u16, reqs: &[(char, Vec<u8>)]) -> Vec<Result<(u16, Ve
             out.push(Err(format!("write: {:?}", e.kind())));
             continue;
         }
-        out.push(read_response(&mut st, &mut buf));
+        let r = read_response(&mut st, &mut buf);
+        if r.is_err() {
+            UNANSWERED.fetch_add(1, std::sync::atomic::Ordering::Relaxed);
+        }
+        out.push(r);
     }
     out
 }
